@@ -65,7 +65,12 @@ def _lind(draw):
             "form": draw(st.sampled_from(["op", "tensor"])), "A": draw(gens.density_matrix_spec(dim)),
             "nt": draw(st.integers(3, 8)), "dense": draw(st.integers(1, 10) | st.sampled_from([1, 2, 3])),
             "x": draw(st.sampled_from(XT)), "k0": draw(st.sampled_from([0, 0, 0, 2, -1])),
-            "jit_steps": draw(st.integers(1, 7)), "save": draw(st.booleans())}
+            "jit_steps": draw(st.integers(1, 7)), "save": draw(st.booleans()),
+            # apply() with a list of equidistant grid times [first index, stride, count] (the list form of apply() builds
+            # a TimeAxis from the first two entries), not necessarily starting at the first point; use of the
+            # calculated superoperator inside the eigenbasis of the Hamiltonian
+            "tlist": draw(st.sampled_from([None, None]) | st.tuples(st.integers(0, 4), st.integers(1, 3), st.integers(2, 5)).map(list)),
+            "in_basis": draw(st.booleans())}
 
 
 @st.composite
@@ -76,7 +81,9 @@ def _red(draw):
     return {"kind": "redfield", "spec": spec, "secular": draw(st.booleans()), "as_ops": draw(st.booleans()),
             "A": draw(gens.density_matrix_spec(n + 1)), "nt": draw(st.integers(3, 6)),
             "mult": draw(st.integers(2, 10)), "dense": draw(st.sampled_from([1, 2, 5])),
-            "jit_steps": draw(st.integers(1, 5)), "save": draw(st.booleans())}
+            "jit_steps": draw(st.integers(1, 5)), "save": draw(st.booleans()),
+            "tlist": draw(st.sampled_from([None, None]) | st.tuples(st.integers(0, 4), st.integers(1, 3), st.integers(2, 5)).map(list)),
+            "in_basis": draw(st.booleans())}
 
 
 def strategy(tier):
@@ -107,6 +114,58 @@ def _laws(ctx, data, tag):
     ctx.close("trace-preserving", tr, numpy.broadcast_to(numpy.eye(dim), tr.shape), rtol=1e-9, scale=scale, where=tag)
     ctx.close("hermiticity-preserving", numpy.conj(data), numpy.transpose(data, (0, 2, 1, 4, 3)), rtol=1e-9,
               scale=scale, where=tag)
+
+
+def _more_uses(qr, case, eso, time, ham, rho0, nt):
+    """further uses of a calculated superoperator: apply() with a list of times, and use inside a basis context"""
+    from quantarhei.qm import ReducedDensityMatrix
+    extra = {}
+    idx = []
+    if case.get("tlist"):
+        i0, stride, count = case["tlist"]
+        idx = [i for i in range(i0 % nt, nt, stride)][:count]
+    if len(idx) >= 2:
+        res = eso.apply([float(time.data[i]) for i in idx], ReducedDensityMatrix(data=rho0.copy()))
+        extra["list"] = (idx, numpy.array(res.data))
+    if case.get("in_basis"):
+        rin = ReducedDensityMatrix(data=rho0.copy())
+        with qr.eigenbasis_of(ham):
+            dat_in = numpy.array(eso.data)
+            outs = [eso.apply(float(t), rin) for t in time.data]
+            rho_in = numpy.array(rin.data)
+            seen = [numpy.array(o.data) for o in outs]
+        extra["in_basis"] = (dat_in, numpy.array([numpy.array(o.data) for o in outs]), rho_in, numpy.array(seen),
+                             numpy.array(eso.data))
+    return extra
+
+
+def _check_more(ctx, extra, data, applied, tag):
+    if "list" in extra:
+        idx, got = extra["list"]
+        if got.shape[0] != len(idx):
+            ctx.fail("apply-list-of-times", tag, why="length", got=int(got.shape[0]), want=len(idx))
+        else:
+            ctx.close("apply-list-of-times", got, applied[idx], rtol=1e-9, scale=max(1.0, float(numpy.max(numpy.abs(applied)))),
+                      where=tag, first_index=idx[0])
+        ctx.label("apply-list:first=%s" % ("0" if idx[0] == 0 else ">0"))
+    if "in_basis" in extra:
+        dat_in, outs, rho_in, seen, dat_after = extra["in_basis"]
+        nt, dim = dat_in.shape[0], dat_in.shape[1]
+        sc = max(1.0, float(numpy.max(numpy.abs(dat_in)))) ** 2
+        ctx.bound("in-basis/identity-at-zero", float(numpy.max(numpy.abs(dat_in[0] - _identity(dim)))), 1e-9, where=tag)
+        worst = 0.0
+        for i in range(nt):
+            for j in range(nt - i):
+                worst = max(worst, float(numpy.max(numpy.abs(numpy.tensordot(dat_in[i], dat_in[j]) - dat_in[i + j]))))
+        ctx.bound("in-basis/semigroup", worst, 1e-9 * sc * nt, where=tag)
+        # inside the context: U(t) acting on the state as presented there gives the result as presented there
+        act = numpy.array([numpy.tensordot(dat_in[i], rho_in) for i in range(nt)])
+        ctx.close("in-basis/apply-consistent", seen, act, rtol=1e-9, scale=max(1.0, float(numpy.max(numpy.abs(act)))), where=tag)
+        # read after the context is closed: the same as computed outside
+        ctx.close("in-basis/apply-equals-outside", outs, applied, rtol=1e-9, scale=max(1.0, float(numpy.max(numpy.abs(applied)))),
+                  where=tag)
+        ctx.close("in-basis/restored", dat_after, data, rtol=1e-9, scale=max(1.0, float(numpy.max(numpy.abs(data)))), where=tag)
+        ctx.label("used-in-basis-context")
 
 
 def _jit(ctx, make, data, case, tag):
@@ -206,20 +265,22 @@ def _check_lind(case, ctx):
         prop = ReducedDensityMatrixPropagator(time2, ham2, relt2)
         rt = prop.propagate(ReducedDensityMatrix(data=rho0.copy()), Nref=dense)
         direct = numpy.array(rt.data)
+        extra = _more_uses(qr, case, eso, time, ham, rho0, nt)
         lab = None
         if rwa is not None:
             eso.convert_from_RWA()
             lab = numpy.array(eso.data)
-        return data, numpy.array(applied), direct, lab
+        return data, numpy.array(applied), direct, lab, extra
     ok, r = guarded(ctx, "calculate", run_all, tag)
     if not ok:
         return
-    data, applied, direct, lab = r
+    data, applied, direct, lab, extra = r
     if data.shape != (nt, dim, dim, dim, dim):
         ctx.fail("shape", tag, got=list(data.shape))
         return
     _laws(ctx, data, tag)
     ctx.close("apply-equals-propagation", applied, direct, rtol=1e-8, scale=1.0, where=tag, dense=dense)
+    _check_more(ctx, extra, data, applied, tag)
     # agreement with the exact exponential (frame that was propagated)
     exact_r, tau = orc.truncation_profile(Lprop, dtd, 4, rho0.reshape(-1), (nt - 1) * dense)
     exact = exact_r[::dense].reshape(nt, dim, dim)
@@ -271,15 +332,17 @@ def _check_red(case, ctx):
         time2, ham2, relt2 = make()
         prop = ReducedDensityMatrixPropagator(time2, ham2, relt2)
         rt = prop.propagate(ReducedDensityMatrix(data=rho0.copy()), Nref=dense)
-        return data, numpy.array(applied), numpy.array(rt.data)
+        extra = _more_uses(qr, case, eso, time, ham, rho0, nt)
+        return data, numpy.array(applied), numpy.array(rt.data), extra
     ok, r = guarded(ctx, "calculate", run_all, tag)
     if not ok:
         return
-    data, applied, direct = r
+    data, applied, direct, extra = r
     if not numpy.all(numpy.isfinite(data)):
         ctx.fail("finite", tag)
         return
     _laws(ctx, data, tag)
     scale = max(1.0, float(numpy.max(numpy.abs(direct))))
     ctx.close("apply-equals-propagation", applied, direct, rtol=1e-8, scale=scale, where=tag, dense=dense)
+    _check_more(ctx, extra, data, applied, tag)
     _jit(ctx, make, data, case, tag)
